@@ -802,6 +802,36 @@ func runAlloc(t *testing.T, prop string) {
 	}
 
 	if raw, ok := verifrt.ReplayCase(); ok {
+		var kd struct {
+			Kind     string `json:"kind"`
+			Universe string `json:"universe"`
+			Variant  string `json:"variant"`
+			Order    []int  `json:"map_order_choices"`
+		}
+		if json.Unmarshal(raw, &kd) == nil && kd.Kind == "key-derivation" {
+			for _, th := range []bool{false, true} {
+				for _, u := range universes(th) {
+					for vi, v := range u.Variants {
+						if u.Name != kd.Universe || u.VarNames[vi] != kd.Variant {
+							continue
+						}
+						svc := v.DeepCopy()
+						svc.Namespace, svc.Name = "ns1", "probe"
+						ref := fmt.Sprint(k8salloc.Ports(svc), "|", SharingKey(svc), "|", k8salloc.BackendKey(svc))
+						var got string
+						verifrt.RunWithChoices(kd.Order, []string{"maporder"}, func(*verifrt.Chooser) {
+							got = fmt.Sprint(k8salloc.Ports(svc), "|", SharingKey(svc), "|", k8salloc.BackendKey(svc))
+						})
+						if got != ref {
+							res.Violate("C03 the keys a service is recorded with depend on map iteration order", fmt.Sprintf("%q vs %q", ref, got), kd)
+						}
+						res.Replayed = true
+						return
+					}
+				}
+			}
+			t.Fatalf("unknown variant %s/%s", kd.Universe, kd.Variant)
+		}
 		var c allocCase
 		if err := json.Unmarshal(raw, &c); err != nil {
 			t.Fatal(err)
@@ -822,6 +852,29 @@ func runAlloc(t *testing.T, prop string) {
 	deadline := time.Now().Add(verifrt.Budget())
 	us := universes(thorough)
 	work := 0
+	if prop == "C03" && verifrt.Mine(0) {
+		// what a service is recorded with (ports, sharing key, backend key) is re-derived on every sync and compared with
+		// what the allocator stored: each derivation must give one value, whatever order a map is walked in. Every service
+		// variant of every universe x every map-iteration order (<=3 non-default answers) of the derivation functions.
+		for _, u := range us {
+			for vi, v := range u.Variants {
+				svc := v.DeepCopy()
+				svc.Namespace, svc.Name = "ns1", "probe"
+				ref := fmt.Sprint(k8salloc.Ports(svc), "|", SharingKey(svc), "|", k8salloc.BackendKey(svc))
+				verifrt.ExploreChoices(3, []string{"maporder"}, func(ch *verifrt.Chooser) {
+					got := fmt.Sprint(k8salloc.Ports(svc), "|", SharingKey(svc), "|", k8salloc.BackendKey(svc))
+					res.Count("key_derivations", 1)
+					if got != ref {
+						tr := append([]int{}, ch.Trace...)
+						verifrt.SetChooser(nil)
+						res.Violate("C03 the keys a service is recorded with depend on map iteration order", fmt.Sprintf("universe %s variant %s: %q under the default order, %q under order vector %v", u.Name, u.VarNames[vi], ref, got, tr),
+							map[string]interface{}{"universe": u.Name, "variant": u.VarNames[vi], "map_order_choices": tr, "kind": "key-derivation"})
+						verifrt.SetChooser(ch)
+					}
+				}, nil)
+			}
+		}
+	}
 	// quick: depth 3 with user events arriving in bursts of two. thorough: that pass, then depth 4 with user events
 	// at quiescent states only (bursts at depth 4 multiply the graph by ten).
 	type passT struct {
